@@ -158,12 +158,12 @@ def build_driver(components=None):
         return drv
 
 
-def build_harness(cmds=('owrun',), tags='verif', race=False):
+def build_harness(cmds=('owrun',), tags='verif', race=False, suffix=''):
     """go build of the harness commands against /repo's current working tree."""
     with _Lock():
         sh('cp /repo/go.sum %s/go.sum' % HARNESS)
         for c in cmds:
-            out = os.path.join(HARNESS, 'bin', c + ('-race' if race else ''))
+            out = os.path.join(HARNESS, 'bin', c + suffix + ('-race' if race else ''))
             sh(['go', 'build', '-tags', tags] + (['-race'] if race else []) + ['-o', out, './cmd/' + c],
                cwd=HARNESS, env=GOENV, timeout=1800)
 
